@@ -1,6 +1,58 @@
-import Firefly.Model.Pmm
+import Firefly.Proof.PmmHistory
+/-!
+# C01 — Physical frames are handed out exclusively and only from free RAM
+
+Statement (properties.jsonl): once the physical memory manager has been initialised from a
+bootloader memory map, every frame it hands out lies wholly inside a region the bootloader
+reported as available, is not part of the loaded kernel image, was not already consumed by the
+early-boot allocator, and is not currently held by any other caller. A frame can be handed out
+again only after it has been freed.
+
+The theorems are about the executable model `Firefly.Pmm` (tied to the Go code by the
+correspondence run). `Inv` is the allocator's representation invariant, `isFree` the abstraction to
+the set of free frames; `Firefly.C03.init_*` show that initialisation establishes `Inv` with
+`isFree` = available RAM − kernel image − early allocations.
+-/
 namespace Firefly.C01
 open Firefly.Pmm
-theorem placeholder_free_unmanaged (bm : Bitmap) (f : Nat) (h : poolForFrame bm.pools f = none) :
-    free bm f = (bm, .notManaged) := by simp [free, h]
+
+/-- **alloc_refines** — `AllocFrame` returns a frame that was free, removes exactly that frame from
+the free set and keeps the invariant; it reports out-of-memory only when no frame is free, and then
+changes nothing. -/
+theorem alloc_refines (bm : Bitmap) (hI : Inv bm) :
+    (∀ bm' f, alloc bm = (bm', some f) →
+      isFree bm f ∧ Inv bm' ∧ ∀ g, isFree bm' g ↔ (isFree bm g ∧ g ≠ f)) ∧
+    (∀ bm', alloc bm = (bm', none) → bm' = bm ∧ ∀ g, ¬ isFree bm g) := by
+  constructor
+  · intro bm' f h
+    obtain ⟨h1, h2, _, _, _, h6⟩ := alloc_some hI h
+    exact ⟨h1, h2, h6⟩
+  · intro bm' h
+    obtain ⟨h1, h2, _⟩ := alloc_none hI h
+    exact ⟨h1, h2⟩
+
+/-- **free_refines** — a successful `FreeFrame` adds exactly the given (previously not free) frame
+to the free set and keeps the invariant. -/
+theorem free_refines (bm bm' : Bitmap) (f : Nat) (hI : Inv bm) (h : free bm f = (bm', .ok)) :
+    ¬ isFree bm f ∧ Inv bm' ∧ ∀ g, isFree bm' g ↔ (isFree bm g ∨ g = f) := by
+  obtain ⟨h1, h2, _, _, _, h6⟩ := free_ok hI h
+  exact ⟨h1, h2, h6⟩
+
+/-- **exclusive** — for every history of allocate/free calls (callers free only frames they hold;
+other frees are of free or unmanaged frames and are rejected), from any state satisfying the
+invariant: every frame handed out belongs to the set `U` of frames that were free at the start and
+is not held by any caller at that moment; out-of-memory is reported only when every frame of `U` is
+held. In particular a frame is handed out a second time only after a successful free of it. -/
+theorem exclusive (bm : Bitmap) (hI : Inv bm) (ops : List Op) (hc : Contract bm [] ops) :
+    TraceOk (isFree bm) (runOps bm [] ops).2.2 :=
+  (run_ok ops (sim_init hI) hc).1
+
+/-- the held list at the end of a history is duplicate free and disjoint from the free set, and
+together they are exactly the initial free set: no frame is lost or duplicated. -/
+theorem conservation (bm : Bitmap) (hI : Inv bm) (ops : List Op) (hc : Contract bm [] ops) :
+    let r := runOps bm [] ops
+    r.2.1.Nodup ∧ (∀ f, isFree bm f ↔ (isFree r.1 f ∨ f ∈ r.2.1)) ∧ (∀ f ∈ r.2.1, ¬ isFree r.1 f) := by
+  have h := (run_ok ops (sim_init hI) hc).2
+  exact ⟨h.nodup, h.split, h.disj⟩
+
 end Firefly.C01
